@@ -1,7 +1,7 @@
 (* Main_proofs.v - facts about the model of main.rs / flags.rs (theories/Main.v). *)
 From BW Require Import Main.
 From BWGen Require Import ExtTable.
-From BWP Require Import TextFacts Keys_proofs.
+From BWP Require Import TextFacts Keys_proofs Context_proofs.
 From Coq Require Import ZifyBool ZifyN ZifyNat.
 Arguments N.add : simpl never. Arguments N.eqb : simpl never.
 
@@ -52,7 +52,8 @@ Proof.
   - right. exact (IH _ _ H).
 Qed.
 
-(* a name that is not registered, as typed, is a usage error - whatever else is on the command line *)
+(* a name that is not registered, as typed, is a usage error - whatever else is on the command line,
+   and even when the occurrence is one that main would never see (F12) *)
 Theorem unknown_validator_is_usage_error : forall a s,
   In s (ca_dis_raw a ++ ca_en_raw a) -> ~ In s validator_names -> plan_of a = Err E_USAGE.
 Proof.
@@ -66,60 +67,77 @@ Proof.
     destruct (map_opt parse_validator (ca_dis_raw a)); reflexivity.
 Qed.
 
+Ltac plan_cases H :=
+  unfold plan_of in H;
+  destruct (map_opt parse_extension (ca_ext_raw _)); [|discriminate H];
+  destruct (map_opt parse_validator (ca_dis_raw _)); [|discriminate H];
+  destruct (map_opt parse_validator (ca_en_raw _)); [|discriminate H].
+
 (* --enable and --disable together never reach the files *)
 Theorem enable_and_disable_rejected : forall a,
-  ca_dis_raw a <> [] -> ca_en_raw a <> [] -> exists e, plan_of a = Err e.
+  effective (ca_dis_pre a) (ca_dis_post a) <> [] -> effective (ca_en_pre a) (ca_en_post a) <> [] ->
+  exists e, plan_of a = Err e.
 Proof.
   intros a Hd He. unfold plan_of.
-  destruct (map_opt parse_extension (ca_ext_raw a)) as [exts|]; [|eexists; reflexivity].
-  destruct (map_opt parse_validator (ca_dis_raw a)) as [dis|] eqn:Ed; [|eexists; reflexivity].
-  destruct (map_opt parse_validator (ca_en_raw a)) as [en|] eqn:Ee; [|eexists; reflexivity].
+  destruct (map_opt parse_extension (ca_ext_raw a)); [|eexists; reflexivity].
+  destruct (map_opt parse_validator (ca_dis_raw a)); [|eexists; reflexivity].
+  destruct (map_opt parse_validator (ca_en_raw a)); [|eexists; reflexivity].
+  destruct (map_opt parse_extension (effective _ _)) as [exts|]; [|eexists; reflexivity].
+  destruct (map_opt parse_validator (effective (ca_dis_pre a) _)) as [dis|] eqn:Ed; [|eexists; reflexivity].
+  destruct (map_opt parse_validator (effective (ca_en_pre a) _)) as [en|] eqn:Ee; [|eexists; reflexivity].
   destruct (negb (forallb (fun kv => supported (snd kv)) exts)); [eexists; reflexivity|].
   assert (Hdn : nonempty dis = true).
-  { apply map_opt_length in Ed. destruct dis; [|reflexivity]. destruct (ca_dis_raw a); [congruence|discriminate]. }
+  { apply map_opt_length in Ed. destruct dis; [|reflexivity]. destruct (effective (ca_dis_pre a) _); [congruence|discriminate]. }
   assert (Hen : nonempty en = true).
-  { apply map_opt_length in Ee. destruct en; [|reflexivity]. destruct (ca_en_raw a); [congruence|discriminate]. }
+  { apply map_opt_length in Ee. destruct en; [|reflexivity]. destruct (effective (ca_en_pre a) _); [congruence|discriminate]. }
   rewrite Hdn, Hen. eexists. reflexivity.
 Qed.
 
-(* a plan only exists when every -E value is KEY=VALUE with a registered VALUE *)
+(* a plan only exists when every -E value main sees is KEY=VALUE with a registered VALUE *)
 Theorem plan_ext_supported : forall a p k v,
   plan_of a = Ok p -> In (k, v) (pl_ext p) -> supported v = true.
 Proof.
-  intros a p k v H Hin. unfold plan_of in H.
-  destruct (map_opt parse_extension (ca_ext_raw a)) as [exts|]; [|discriminate].
-  destruct (map_opt parse_validator (ca_dis_raw a)) as [dis|]; [|discriminate].
-  destruct (map_opt parse_validator (ca_en_raw a)) as [en|]; [|discriminate].
+  intros a p k v H Hin. plan_cases H.
+  destruct (map_opt parse_extension (effective _ _)) as [exts|]; [|discriminate].
+  destruct (map_opt parse_validator (effective (ca_dis_pre a) _)) as [dis|]; [|discriminate].
+  destruct (map_opt parse_validator (effective (ca_en_pre a) _)) as [en|]; [|discriminate].
   destruct (forallb (fun kv => supported (snd kv)) exts) eqn:Ef; cbn [negb] in H; [|discriminate].
   destruct (nonempty dis && nonempty en); [discriminate|].
   destruct (negb (ca_globs_ok a)); [discriminate|].
-  destruct (negb (ca_ignores_ok a)); [discriminate|].
+  destruct (negb (if ca_ign_post a =? 0 then _ else _)); [discriminate|].
   destruct (negb (ca_root a)); [discriminate|].
   injection H as <-. cbn [pl_ext] in Hin.
   rewrite forallb_forall in Ef. exact (Ef (k, v) Hin).
 Qed.
 
+Lemma plan_never_panics a n : plan_of a <> Panic n.
+Proof.
+  unfold plan_of.
+  destruct (map_opt parse_extension (ca_ext_raw a)); [|discriminate].
+  destruct (map_opt parse_validator (ca_dis_raw a)); [|discriminate].
+  destruct (map_opt parse_validator (ca_en_raw a)); [|discriminate].
+  destruct (map_opt parse_extension (effective _ _)); [|discriminate].
+  destruct (map_opt parse_validator (effective (ca_dis_pre a) _)); [|discriminate].
+  destruct (map_opt parse_validator (effective (ca_en_pre a) _)); [|discriminate].
+  destruct (negb _); [discriminate|]. destruct (_ && _); [discriminate|].
+  destruct (negb _); [discriminate|]. destruct (negb _); [discriminate|].
+  destruct (negb _); discriminate.
+Qed.
+
 Theorem unsupported_ext_rejected : forall a s k v,
-  In s (ca_ext_raw a) -> parse_extension s = Some (k, v) -> supported v = false ->
+  In s (effective (ca_ext_pre a) (ca_ext_post a)) -> parse_extension s = Some (k, v) -> supported v = false ->
   exists e, plan_of a = Err e.
 Proof.
   intros a s k v Hin Hs Hv.
-  destruct (plan_of a) as [p|e|n] eqn:E; [|eexists; reflexivity|].
-  - exfalso. pose proof E as E'. unfold plan_of in E.
-    destruct (map_opt parse_extension (ca_ext_raw a)) as [exts|] eqn:Ex; [|discriminate].
-    destruct (map_opt_some parse_extension _ exts Ex s Hin) as (y & Hy & Hiy).
-    rewrite Hs in Hy. injection Hy as <-.
-    destruct (map_opt parse_validator (ca_dis_raw a)) as [dis|]; [|discriminate].
-    destruct (map_opt parse_validator (ca_en_raw a)) as [en|]; [|discriminate].
-    destruct (forallb (fun kv => supported (snd kv)) exts) eqn:Ef; cbn [negb] in E; [|discriminate].
-    rewrite forallb_forall in Ef. specialize (Ef (k, v) Hiy). cbn [snd] in Ef. congruence.
-  - exfalso. unfold plan_of in E.
-    destruct (map_opt parse_extension (ca_ext_raw a)); [|discriminate].
-    destruct (map_opt parse_validator (ca_dis_raw a)); [|discriminate].
-    destruct (map_opt parse_validator (ca_en_raw a)); [|discriminate].
-    destruct (negb _); [discriminate|]. destruct (_ && _); [discriminate|].
-    destruct (negb _); [discriminate|]. destruct (negb _); [discriminate|].
-    destruct (negb _); discriminate.
+  destruct (plan_of a) as [p|e|n] eqn:E; [|eexists; reflexivity|exfalso; exact (plan_never_panics a n E)].
+  exfalso. plan_cases E.
+  destruct (map_opt parse_extension (effective _ _)) as [exts|] eqn:Ex; [|discriminate].
+  destruct (map_opt_some parse_extension _ exts Ex s Hin) as (y & Hy & Hiy).
+  rewrite Hs in Hy. injection Hy as <-.
+  destruct (map_opt parse_validator (effective (ca_dis_pre a) _)); [|discriminate].
+  destruct (map_opt parse_validator (effective (ca_en_pre a) _)); [|discriminate].
+  destruct (forallb (fun kv => supported (snd kv)) exts) eqn:Ef; cbn [negb] in E; [|discriminate].
+  rewrite forallb_forall in Ef. specialize (Ef (k, v) Hiy). cbn [snd] in Ef. congruence.
 Qed.
 
 (* a -E value without '=' is a usage error *)
@@ -165,15 +183,15 @@ Theorem plan_modes : forall a p, plan_of a = Ok p ->
   pl_scan p = (negb (ca_nglobs a =? 0) || ca_terminal a) /\
   pl_star p = ((ca_nglobs a =? 0) && ca_terminal a) /\
   pl_diff p = (if ca_terminal a then None else Some (ca_stdin a)) /\
-  ca_root a = true /\ ca_globs_ok a = true /\ ca_ignores_ok a = true.
+  ca_root a = true /\ ca_globs_ok a = true.
 Proof.
-  intros a p H. unfold plan_of in H.
-  destruct (map_opt parse_extension (ca_ext_raw a)); [|discriminate].
-  destruct (map_opt parse_validator (ca_dis_raw a)); [|discriminate].
-  destruct (map_opt parse_validator (ca_en_raw a)); [|discriminate].
+  intros a p H. plan_cases H.
+  destruct (map_opt parse_extension (effective _ _)); [|discriminate].
+  destruct (map_opt parse_validator (effective (ca_dis_pre a) _)); [|discriminate].
+  destruct (map_opt parse_validator (effective (ca_en_pre a) _)); [|discriminate].
   destruct (negb (forallb _ _)); [discriminate|]. destruct (_ && _); [discriminate|].
   destruct (ca_globs_ok a); cbn [negb] in H; [|discriminate].
-  destruct (ca_ignores_ok a); cbn [negb] in H; [|discriminate].
+  destruct (negb (if ca_ign_post a =? 0 then _ else _)); [discriminate|].
   destruct (ca_root a); cbn [negb] in H; [|discriminate].
   injection H as <-. cbn [pl_scan pl_star pl_diff].
   destruct (ca_nglobs a =? 0), (ca_terminal a); repeat split; reflexivity.
@@ -204,41 +222,106 @@ Proof. intros a e fs fs' tb tb' cd cd' H. unfold main_model. rewrite H. split; r
 
 Theorem exit_2_iff_usage : forall a fs tb cd,
   main_exit (main_model a fs tb cd) = 2 ->
-  plan_of a = Err E_USAGE \/ (exists n, plan_of a = Panic n) \/
-  (exists v, main_model a fs tb cd = MRun v /\ exit_code v = 2).
+  plan_of a = Err E_USAGE \/ (exists v, main_model a fs tb cd = MRun v /\ exit_code v = 2).
 Proof.
   intros a fs tb cd H. unfold main_model in *.
   destruct (plan_of a) as [p|e|n] eqn:E.
-  - right. right. destruct (ca_list a).
+  - right. destruct (ca_list a).
     + cbn [main_exit] in H. destruct (cr_panic _); [discriminate|]. destruct (cr_errs _); discriminate.
     + cbn [main_exit] in H. destruct (vr_panic _); [discriminate|].
       destruct (vr_errs _) eqn:Ev; [|discriminate]. eexists. split; [reflexivity|exact H].
   - left. cbn [main_exit] in H. destruct (N.eqb_spec e E_USAGE) as [->|]; [reflexivity|discriminate].
-  - right. left. eexists. reflexivity.
+  - exfalso. exact (plan_never_panics a n E).
 Qed.
 
 (* `list` prints the context and nothing else: the validator flags, once accepted, do not matter *)
 Theorem list_ignores_validator_flags : forall a a' p p' fs tb cd,
   plan_of a = Ok p -> plan_of a' = Ok p' ->
   pl_scan p = pl_scan p' -> pl_star p = pl_star p' -> pl_diff p = pl_diff p' -> pl_ext p = pl_ext p' ->
+  ca_ign_post a = ca_ign_post a' ->
   ca_list a = true -> ca_list a' = true ->
   main_model a fs tb cd = main_model a' fs tb cd.
 Proof.
-  intros a a' p p' fs tb cd H H' Hs Hst Hd He Hl Hl'. unfold main_model. rewrite H, H', Hl, Hl'.
+  intros a a' p p' fs tb cd H H' Hs Hst Hd He Hi Hl Hl'. unfold main_model. rewrite H, H', Hl, Hl'.
   f_equal. unfold model_context, model_changes, rcase_of, cdiff_of. cbn [rc_files rc_diff rc_scan rc_ext rc_cdiff].
-  rewrite Hs, Hst, Hd, He. reflexivity.
+  assert (Hm : map (effective_file a) fs = map (effective_file a') fs).
+  { apply map_ext. intros m. unfold effective_file. rewrite Hi. reflexivity. }
+  rewrite Hs, Hst, Hd, He, Hm. reflexivity.
 Qed.
 
 (* the run is exactly the model of RunCase on the case main assembles *)
 Theorem main_run_is_model_run : forall a p fs tb cd, plan_of a = Ok p -> ca_list a = false ->
-  main_model a fs tb cd = MRun (model_run (rcase_of p fs tb cd)).
+  main_model a fs tb cd = MRun (model_run (rcase_of p (map (effective_file a) fs) tb cd)).
 Proof. intros a p fs tb cd H Hl. unfold main_model. rewrite H, Hl. reflexivity. Qed.
+
+(* ---------- --ignore wins ... over the globs main gets to see (F12) ---------- *)
+Lemma effective_unsplit {A} (pre post : list A) : pre = [] \/ post = [] -> effective pre post = pre ++ post.
+Proof. intros [H|H]; subst; unfold effective; [destruct post; reflexivity|rewrite app_nil_r; reflexivity]. Qed.
+
+(* a listed file is not ignored by the --ignore globs of the deepest level *)
+Theorem listed_file_not_effectively_ignored : forall a ms tb cd cr fc,
+  main_model a ms tb cd = MList cr -> In fc (cr_ctx cr) ->
+  exists m, In m ms /\ fc_path fc = rf_path (mf_file m) /\
+            (if ca_ign_post a =? 0 then mf_ign_pre m else mf_ign_post m) = false.
+Proof.
+  intros a ms tb cd cr fc H Hin. unfold main_model in H.
+  destruct (plan_of a) as [p|e|n]; [|discriminate|discriminate].
+  destruct (ca_list a); [|discriminate]. injection H as <-.
+  unfold model_context in Hin.
+  destruct (model_changes _) as [ch|e|n]; [|destruct Hin|destruct Hin].
+  apply ignored_never_examined_any in Hin. destruct Hin as (f & Hf & Hp & Hi).
+  unfold rcase_of in Hf. cbn [rc_files] in Hf.
+  assert (Hm : exists m, In m ms /\ rf_path f = rf_path (mf_file m) /\ rf_ignore f = rf_ignore (effective_file a m)).
+  { destruct (pl_star p).
+    - apply in_map_iff in Hf. destruct Hf as (g & <- & Hg). apply in_map_iff in Hg. destruct Hg as (m & <- & Hm).
+      exists m. repeat split; [exact Hm]. 
+    - apply in_map_iff in Hf. destruct Hf as (m & <- & Hm). exists m. repeat split; exact Hm. }
+  destruct Hm as (m & Hm & Hpath & Hig). exists m. split; [exact Hm|]. split; [congruence|].
+  rewrite Hig in Hi. exact Hi.
+Qed.
+
+(* unless the --ignore flags are split around the subcommand, --ignore wins: a listed file
+   matches no --ignore glob at all.  (mf_ign_post is false when nothing was typed after `list`.) *)
+Theorem ignore_wins_unless_split : forall a ms tb cd cr fc,
+  main_model a ms tb cd = MList cr -> In fc (cr_ctx cr) ->
+  (ca_ign_post a = 0 -> forall m, In m ms -> mf_ign_post m = false) ->
+  (ca_ign_post a <> 0 -> forall m, In m ms -> mf_ign_pre m = true -> mf_ign_post m = true) ->
+  exists m, In m ms /\ fc_path fc = rf_path (mf_file m) /\ mf_ign_pre m || mf_ign_post m = false.
+Proof.
+  intros a ms tb cd cr fc H Hin Hzero Hnosplit.
+  destruct (listed_file_not_effectively_ignored a ms tb cd cr fc H Hin) as (m & Hm & Hp & Hi).
+  exists m. split; [exact Hm|]. split; [exact Hp|].
+  destruct (N.eqb_spec (ca_ign_post a) 0) as [E|E].
+  - rewrite Hi, (Hzero E m Hm). reflexivity.
+  - rewrite Hi, orb_false_r. destruct (mf_ign_pre m) eqn:Ep; [|reflexivity].
+    rewrite (Hnosplit E m Hm Ep) in Hi. discriminate.
+Qed.
+
+(* F12: with --ignore typed on both sides of `list` the statement is false - a file matching
+   an --ignore glob is examined and listed.  The witness is replayed on the real binary by
+   the C15 check (and is the shape of every case in the known class). *)
+Definition f12_file : mfile :=
+  mkmfile (T "a.py") (T "# <block name=""a"">
+x
+# </block>
+") [mkspan 0 18 K_HASH 0; mkspan 21 31 K_HASH 0] true true false true false.
+Definition f12_args : cliargs :=   (* blockwatch --ignore a.py list --ignore b.py *)
+  mkcli [] [] [] [] [] [] 1 0 true true true true true [] true.
+Theorem ignore_wins_refuted :
+  exists cr fc, main_model f12_args [f12_file] (mktables [] [] [] [] []) [] = MList cr /\
+                In fc (cr_ctx cr) /\ fc_path fc = T "a.py" /\ mf_ign_pre f12_file = true.
+Proof. eexists. eexists. split; [vm_compute; reflexivity|]. split; [left; reflexivity|]. split; reflexivity. Qed.
 
 (* non-vacuity: a command line that is accepted, one that is not *)
 Example accepted_command_line :
-  exists p, plan_of (mkcli [T "cxx = cpp"] [T "check-ai"] [] 0 true true false true [] true) = Ok p
+  exists p, plan_of (mkcli [T "cxx = cpp"] [] [T "check-ai"] [] [] [] 0 0 true true true false true [] true) = Ok p
             /\ pl_ext p = [(T "cxx", T "cpp")] /\ pl_disabled p = [5] /\ pl_scan p = true /\ pl_star p = true.
 Proof. eexists. split; [vm_compute; reflexivity|]. repeat split. Qed.
 Example rejected_command_line :
-  plan_of (mkcli [] [T "check-ai"] [T "keep-sorted"] 0 true true false true [] true) = Err E_FLAGS.
+  plan_of (mkcli [] [] [T "check-ai"] [] [T "keep-sorted"] [] 0 0 true true true false true [] true) = Err E_FLAGS.
+Proof. vm_compute. reflexivity. Qed.
+(* the registered names, in registration order, are the validator numbers of the model *)
+Example validator_numbering :
+  map parse_validator validator_names =
+  map Some [V_AFFECTS; V_SORTED; V_UNIQUE; V_PATTERN; V_COUNT; V_AI; V_LUA].
 Proof. vm_compute. reflexivity. Qed.
